@@ -10,7 +10,9 @@ for d in sorted(glob.glob('/verif/seeded/*/')):
     m=re.findall(r'^RESULT (.*)$', log, re.M)
     if not m: continue
     res=m[-1]
-    caught=re.search(r'caught_by=\[(.*?)\]', res).group(1).split()
+    stale = 'patch-does-not-apply' in res
+    cm = re.findall(r'caught_by=\[(.*?)\]', res)
+    caught = cm[-1].split() if cm else []
     obl=sorted(set(re.findall(r'^  (?:obligation|bounded stand-in) (\S+)', log, re.M)))
     meta['confirmed_by_main']={
         'how':'scripts/seedcheck.sh: scratch copy of /repo, patch applied, go build ./..., existing tests of the affected packages (twice), demonstration with and without the change, then the registered quick checks against the patched copy',
@@ -18,6 +20,8 @@ for d in sorted(glob.glob('/verif/seeded/*/')):
         'demo_fails_with_change': 'demo_with=fail' in res,
         'demo_passes_without_change': 'demo_without=pass' in res,
         'caught_by_checks': caught,
+        'applies_to_current_tree': not stale,
+        'note': ('the patch no longer applies: the code it changed was repaired or rewritten afterwards; the result recorded here is the one obtained on the tree it was seeded for' if stale else ''),
         'failing_obligations': obl[:8],
     }
     json.dump(meta, open(d+'meta.json','w'), indent=1)
